@@ -11,7 +11,9 @@ POOL_N = ['N', 'M', 'LEN', 'K0', 'C']
 POOL_L = ["'a", "'b", "'x", "'lt", "'t"]
 
 
-def rewrite(rng, c):
+def rewrite(rng, c, j=None):
+    """j: variant number; the placement of the bounds (inline / where) and their order are
+    derived from it so that all arrangements of a bound written in pieces occur"""
     vc = copy.deepcopy(c)
     for b in vc.blocks:
         taken = set()
@@ -26,15 +28,29 @@ def rewrite(rng, c):
         order = list(new)
         rng.shuffle(order)
         b.order = [s for s in order if s[0] == 'L'] + [s for s in order if s[0] != 'L']
-        b.bounds = [(bd, tr, binds, rng.choice(['inline', 'where'])) for (bd, tr, binds, pl) in b.bounds]
+        if j is None:
+            b.bounds = [(bd, tr, binds, rng.choice(['inline', 'where'])) for (bd, tr, binds, pl) in b.bounds]
+        else:
+            pat = [('inline', 'where'), ('where', 'inline'), ('where', 'where'), ('where', 'where'), ('inline', 'inline'), ('inline', 'inline')][j % 6]
+            b.bounds = [(bd, tr, binds, pat[k % 2]) for k, (bd, tr, binds, pl) in enumerate(b.bounds)]
+            if j % 6 in (3, 5):
+                b.bounds = list(reversed(b.bounds))
         b.relaxed = {s: rng.choice(['inline', 'where']) for s in b.relaxed}
     return vc
 
 
 def variants(rng, c):
     out = [('original', c)]
-    for i in range(5):
-        out.append(('rewrite%d' % i, rewrite(rng, c)))
+    for i in range(6):
+        out.append(('rewrite%d' % i, rewrite(rng, c, j=i)))
+    if all(hasattr(b, 'dist_assoc') for b in c.blocks):
+        # a bound written in two pieces: the piece with the distinguishing binding first / last
+        for label, dist_last in (('dist_first', False), ('dist_last', True)):
+            vc = copy.deepcopy(c)
+            for b in vc.blocks:
+                bs = sorted(b.bounds, key=lambda bd: (b.dist_assoc in bd[2]) == dist_last)
+                b.bounds = [(bd, tr, binds, 'where') for (bd, tr, binds, pl) in bs]
+            out.append((label, vc))
     return out
 
 
